@@ -10,6 +10,7 @@
 #include <script/script.h>
 #include <script/script_error.h>
 #include <string.h>
+#include "c12_ref.h"   // verif_repl_serialize: stand-in for CScriptNum::serialize inside EvalScript, proved byte-identical by harness scriptnum_encode
 
 struct RecChecker : public BaseSignatureChecker {
     mutable int calls = 0; mutable bool verdict = false; mutable unsigned siglen = 0, pklen = 0;
